@@ -102,6 +102,8 @@ pub mod script;
 pub mod string;
 pub mod symbol;
 pub mod value;
+#[cfg(boa_verif)]
+pub mod verif;
 pub mod vm;
 
 mod host_defined;
